@@ -35,6 +35,7 @@ func (fc *FuncCtx) instr(in ssa.Instruction, st *State, reach string) *State {
 			a := el.Underlying().(*types.Array)
 			h := st.get(l.heap)
 			st.set(l.heap, fmt.Sprintf("(store %s %s ((as const (Array Int %s)) %s))", h, ref, eng.sorts.sortOf(a.Elem()), eng.sorts.zero(a.Elem())))
+			fc.elemFrame(l.heap, h, st.get(l.heap), ref)
 		} else {
 			fc.storeLoc(l, st, eng.sorts.zero(el))
 		}
@@ -240,7 +241,9 @@ func (fc *FuncCtx) instr(in ssa.Instruction, st *State, reach string) *State {
 		ref := q.define(fc.name(x)+"_arr", "Int", "(+ "+st.get("$wm")+" 1)")
 		st.set("$wm", ref)
 		eh := eng.elemHeap(sl.Elem())
-		st.set(eh, fmt.Sprintf("(store %s %s ((as const (Array Int %s)) %s))", st.get(eh), ref, eng.sorts.sortOf(sl.Elem()), eng.sorts.zero(sl.Elem())))
+		ehOld := st.get(eh)
+		st.set(eh, fmt.Sprintf("(store %s %s ((as const (Array Int %s)) %s))", ehOld, ref, eng.sorts.sortOf(sl.Elem()), eng.sorts.zero(sl.Elem())))
+		fc.elemFrame(eh, ehOld, st.get(eh), ref)
 		fc.setVal(x, fmt.Sprintf("(mk-slice %s 0 %s %s)", ref, ln.T, cp.T))
 		return st
 	case *ssa.MakeClosure:
